@@ -23,10 +23,10 @@ type leaf struct {
 	auto       bool // auto-increment primary key
 	noAuto     bool // autoIncrement:false
 	notNull    bool
-	hasLit     bool   // literal default
-	defLit     string // its text
-	defFn      string // database-side default: abs mul eq lower dt now null
-	autoTime   string // "", time, sec, milli, nano
+	hasLit     bool     // literal default
+	defLit     string   // its text
+	defFn      string   // database-side default: abs mul eq lower dt now null
+	autoTime   string   // "", time, sec, milli, nano
 	ptrGroups  []string // pointer-embedded structs above the leaf (joined paths, outermost first)
 	ord        int
 }
